@@ -19,7 +19,7 @@ def read_dbc(text: str):
         m = BO.match(line)
         if m:
             fid = int(m.group(1)) & 0x1FFFFFFF
-            cur = {"id": fid, "name": m.group(2), "dlc": int(m.group(3)), "signals": {}, "order": []}
+            cur = {"id": fid, "extended": bool(int(m.group(1)) & 0x80000000), "name": m.group(2), "dlc": int(m.group(3)), "signals": {}, "order": []}
             msgs[fid] = cur
             continue
         m = SG.match(line)
